@@ -231,7 +231,7 @@ func C14mcrew(c *vh.Ctx) {
 		return
 	}
 	modes := []mrec{{Mode: "none"}, {Mode: "routed", Target: "a"}, {Mode: "routed", Target: "b"}, {Mode: "unrouted"}, {Mode: "two", Target: "b"}, {Mode: "routed", Target: "timers"}, {Mode: "routed", Target: "ws"}}
-	targets := []interface{}{"<absent>", "a", "b", "zz", "*", []interface{}{"a", "b"}, 7.0, "ws", "timers"}
+	targets := []interface{}{"<absent>", "a", "b", "zz", "*", []interface{}{"a", "b"}, 7.0, "ws", "timers", "", "http", nil, true}
 	depth := c.Pick(2, 3)
 	c.Bound("mcrew_counter_depth", depth)
 	c.Bound("mcrew_deviations_max", bound)
